@@ -1369,37 +1369,35 @@ func (r *Reader) processParagraph(p paragraphXML) parsedParagraph {
 
 // extractRunText extracts text from a run element.
 func (r *Reader) extractRunText(run runXML) string {
+	return runText(run)
+}
+
+// runText concatenates the text of a run's children in document order.
+func runText(run runXML) string {
 	var parts []string
 
-	for _, t := range run.Text {
-		parts = append(parts, t.Value)
-	}
-
-	// Handle symbol characters (emoji and special symbols)
-	for _, sym := range run.Symbols {
-		if char := parseSymbolChar(sym.Char); char != "" {
-			parts = append(parts, char)
-		}
-	}
-
-	// Handle AlternateContent fallbacks (used for emoji in newer Word versions)
-	for _, ac := range run.AlternateContent {
-		for _, t := range ac.Fallback.Text {
-			parts = append(parts, t.Value)
-		}
-	}
-
-	// Handle tab characters
-	for range run.Tabs {
-		parts = append(parts, "\t")
-	}
-
-	// Handle breaks
-	for _, br := range run.Breaks {
-		if br.Type == "page" {
-			parts = append(parts, "\n\n")
-		} else {
-			parts = append(parts, "\n")
+	for _, child := range run.Content {
+		switch child.XMLName.Local {
+		case "t":
+			parts = append(parts, child.Value)
+		case "sym":
+			// Symbol characters (emoji and special symbols)
+			if char := parseSymbolChar(child.Char); char != "" {
+				parts = append(parts, char)
+			}
+		case "AlternateContent":
+			// AlternateContent fallbacks (used for emoji in newer Word versions)
+			for _, t := range child.Fallback.Text {
+				parts = append(parts, t.Value)
+			}
+		case "tab":
+			parts = append(parts, "\t")
+		case "br":
+			if child.Type == "page" {
+				parts = append(parts, "\n\n")
+			} else {
+				parts = append(parts, "\n")
+			}
 		}
 	}
 
